@@ -36,7 +36,7 @@ def cases_for(ctx, rng, maxl, quick):
     return cases
 
 
-def main(ctx, order=ORDER, pid=PID, tags=TAGS, maxl=MAXL, props="C02", oracle=None):
+def main(ctx, order=ORDER, pid=PID, tags=TAGS, maxl=MAXL, props="C02All", oracle=None, extra_modules=("Ecpint.Props.C02", "Ecpint.Props.C03b")):
     rng = random.Random(ctx.seed * 7907 + order)
     quick = ctx.tier == "quick"
     try:
@@ -47,7 +47,7 @@ def main(ctx, order=ORDER, pid=PID, tags=TAGS, maxl=MAXL, props="C02", oracle=No
     except TranslateError as e:
         ctx.obligation("translator indexmaps.py reads the index macros and arrays", False, str(e))
         tr_ok = False
-    proofs_ok = ctx.lean_props(props) if tr_ok else False
+    proofs_ok = ctx.lean_props(props, extra_modules=list(extra_modules)) if tr_ok else False
     cases = cases_for(ctx, rng, maxl, quick)
     drv, res, corr_fail, crash, worst = dc.run_cases(ctx, order, cases, tags)
     ctx.obligation("correspondence: Lean assembly of the shifted-shell blocks = the real routines' matrices (rel 1e-13)",
